@@ -37,6 +37,8 @@ def run(ctx):
         inputs_rule(ctx, fv)
     # the multiplicities come from the counter and the windows from the k-mer iterator
     c07.run(dep(ctx, "C08", "C07"))
+    from . import c15
+    c15.cli_arm_dep(ctx, "C08", ("Cov",))
 
 
 def bin_rule(ctx):
